@@ -900,6 +900,20 @@ func checkLex(c Case) pbt.Result {
 	return res
 }
 
+// byValue: a document marshals to the same bytes whether the application hands xml.Marshal the value or a
+// pointer to it (both are how callers of encoding/xml write it); ptr must be a non-nil pointer.
+func byValue(ptr any) string {
+	bp, errp := xml.Marshal(ptr)
+	bv, errv := xml.Marshal(reflect.ValueOf(ptr).Elem().Interface())
+	if (errp == nil) != (errv == nil) {
+		return fmt.Sprintf("marshalling by pointer gives error %v, by value %v", errp, errv)
+	}
+	if errp == nil && !bytes.Equal(bp, bv) {
+		return fmt.Sprintf("marshalled by pointer and by value differ:\n pointer=%s\n value  =%s", trunc(bp), trunc(bv))
+	}
+	return ""
+}
+
 func xmlRound(v any, into any) ([]byte, error) {
 	b, err := xml.Marshal(v)
 	if err != nil {
@@ -1100,6 +1114,10 @@ func checkEntity(x0 *saml.EntityDescriptor, classes []string) pbt.Result {
 	}
 	if d := preserved(x0, &x1); d != "" {
 		res.Err = fmt.Sprintf("not preserved across marshal/unmarshal: %s\n xml=%s", d, trunc(b0))
+		return res
+	}
+	if d := byValue(x0); d != "" {
+		res.Err = "EntityDescriptor " + d
 	}
 	return res
 }
@@ -1123,6 +1141,10 @@ func checkLibMeta(x *saml.EntityDescriptor, classes []string) pbt.Result {
 	}
 	if d := preserved(x, &y); d != "" {
 		res.Err = fmt.Sprintf("library metadata re-parses to a different value: %s\n%s", d, trunc(b0))
+		return res
+	}
+	if d := byValue(x); d != "" {
+		res.Err = "library metadata " + d
 		return res
 	}
 	// role-level validity instants and the remaining descriptor fields
@@ -1277,6 +1299,16 @@ func checkEntities(x0 *saml.EntitiesDescriptor) pbt.Result {
 	}
 	if cd(x0.CacheDuration) != cd(x1.CacheDuration) {
 		res.Err = fmt.Sprintf("EntitiesDescriptor cacheDuration %v became %v", cd(x0.CacheDuration), cd(x1.CacheDuration))
+		return res
+	}
+	if d := byValue(x0); d != "" {
+		res.Err = "EntitiesDescriptor " + d
+		return res
+	}
+	// what was marshalled by value re-parses like the rest
+	var xv saml.EntitiesDescriptor
+	if bv, err := xmlRound(*x0, &xv); err != nil {
+		res.Err = "EntitiesDescriptor marshalled by value: " + err.Error() + " " + trunc(bv)
 	}
 	return res
 }
@@ -1372,7 +1404,7 @@ func enumZones(_ string, emit func(Case)) {
 var prop = &pbt.Prop[Case]{
 	ID: "C15",
 	Rule: "cases: rapid draws over {int64 durations by boundary class, grammar-generated xsd:duration strings, instants in years 1..9999 at ns resolution x zone, " +
-		"accepted / skeleton-broken lexical dateTime forms, SP and IdP configurations (library metadata), arbitrary EntityDescriptor / EntitiesDescriptor values}, " +
+		"accepted / skeleton-broken lexical dateTime forms, SP and IdP configurations (library metadata), arbitrary EntityDescriptor / EntitiesDescriptor values, each marshalled through a pointer and by value (same bytes, same re-parse)}, " +
 		"plus exhaustive enumerations (duration boundary classes, microsecond grid below 1 s, millisecond grid, all quarter-hour zone offsets). " +
 		"non-trivial: duration with non-zero sub-second part, a carry or |d|>=2^62; instant with sub-millisecond digits or non-UTC zone; every lexical-form, string and metadata case. " +
 		"distinct: sha256 of the JSON case.",
